@@ -25,6 +25,7 @@ EXPLANATION = (
     "dispatch are coherent between Subroutine.cstructs and Deserializer."
     ' Each Flavour instance must own its opcode and mnemonic tables (no aliasing of a shared container that is then updated). C01.R: every value an encoder accepts is representable in the field it is written to (the guard/sink obligations of C16).'
     ' C01.F accepts every list form of cstructs ([h] + [...], [h, *...]) and a kept header only when every writer of _app_id / _netqasm_version drops it.'
+    ' The chunking of deserialize_subroutine is evaluated for lengths of 0, 1, 3 and 10 commands (every chunk must be data[k*7:(k+1)*7]).'
 )
 ASSUMPTIONS = [
     "operands are inside their encodable ranges (that is C16)",
